@@ -122,6 +122,11 @@ def canon(v):
     return ["?" + type(v).__name__, repr(v)[:80]]
 
 
+def _digest(s):
+    import hashlib
+    return hashlib.blake2b(s.encode(), digest_size=8).hexdigest()
+
+
 class CapLogger:
     """Capturing LoggerInterface installed with set_logger."""
 
@@ -166,10 +171,18 @@ class Interp:
         mode = self.prog.get("ret", "obs")
         obs = self.run_seq(context, self.prog["body"], "r")
         if mode == "obs":
-            return obs
-        if isinstance(mode, list):
-            return mkvalue(mode)
-        return None
+            res = obs
+        elif isinstance(mode, list):
+            res = mkvalue(mode)
+        else:
+            res = None
+        try:
+            import json as _json
+            sj = _json.dumps(res)
+            w.rec("handler-exit", size=len(sj), digest=_digest(sj), serialisable=True)
+        except (TypeError, ValueError):
+            w.rec("handler-exit", size=None, digest=None, serialisable=False)
+        return res
 
     # ------------------------------------------------------------ sequence
     def run_seq(self, ctx, seq, prefix, item=None):
@@ -202,12 +215,13 @@ class Interp:
         try:
             v = meth(ctx, st, pos, item)
         except (self.exc.SuspendExecution, self.exc.OrphanedChildException, self.exc.BackgroundThreadError) as e:
-            w.rec("call-abort", pos=pos, op=op, cls=type(e).__name__)
+            w.rec("call-abort", pos=pos, op=op, cls=type(e).__name__, inner=bool(getattr(e, "_dexsim_inner", False)))
             raise
         except _sim.SimKilled:
             raise
         except BaseException as e:  # noqa: BLE001
             w.rec("call-raise", pos=pos, op=op, cls=type(e).__name__, msg=str(e),
+                  etype=getattr(e, "error_type", None), inner=bool(getattr(e, "_dexsim_inner", False)),
                   inv_level=isinstance(e, self.exc.InvocationError))
             raise
         c = canon(v)
@@ -261,7 +275,7 @@ class Interp:
         w.rec("fn-exit", pos=pos, n=j, attempt=attempt, outcome="ret", v=canon(v))
         return v
 
-    def _retry_strategy(self, pos, rs):
+    def _retry_strategy(self, pos, rs, recname=None):
         if rs is None:
             return None
         R = self.retries
@@ -300,8 +314,11 @@ class Interp:
 
         def strategy(err, attempts_made):
             dec = inner(err, attempts_made)
+            rec = w.backend.by_name(recname or pos)
+            be_att = None if rec is None else (rec.get("StepDetails") or {}).get("Attempt", 0)
             w.rec("strategy", pos=pos, attempts_made=attempts_made, err=type(err).__name__, msg=str(err),
-                  retry=bool(dec.should_retry), delay=dec.delay_seconds)
+                  retry=bool(dec.should_retry), delay=dec.delay_seconds, be_attempt=be_att,
+                  be_status=None if rec is None else rec["Status"])
             return dec
 
         return strategy
@@ -327,7 +344,14 @@ class Interp:
                                heartbeat_timeout=C.Duration(seconds=c.get("hb", 0)))
         cb = ctx.create_callback(name=pos, config=cfg)
         self.w.rec("cb-created", pos=pos, callback_id=cb.callback_id)
-        between = self.run_seq(ctx, st.get("between", []), pos + "/w", item)
+        try:
+            between = self.run_seq(ctx, st.get("between", []), pos + "/w", item)
+        except BaseException as e:  # noqa: BLE001 - tag: did not come from result()
+            try:
+                e._dexsim_inner = True
+            except AttributeError:
+                pass
+            raise
         self.w.rec("cb-result-call", pos=pos)
         res = cb.result()
         return [canon(cb.callback_id)[1], between, res]
@@ -337,7 +361,7 @@ class Interp:
         c = st.get("cfg") or {}
         cfg = C.WaitForCallbackConfig(timeout=C.Duration(seconds=c.get("timeout", 0)),
                                       heartbeat_timeout=C.Duration(seconds=c.get("hb", 0)),
-                                      retry_strategy=self._retry_strategy(pos, st.get("retry")))
+                                      retry_strategy=self._retry_strategy(pos, st.get("retry"), recname=pos + " submitter"))
         w = self.w
 
         def submitter(callback_id, wctx):
@@ -376,12 +400,13 @@ class Interp:
 
     def op_child(self, ctx, st, pos, item):
         def body(child_ctx):
-            self.w.rec("body-enter", pos=pos, bkind="child")
+            rec = self.w.backend.by_name(pos)
+            self.w.rec("body-enter", pos=pos, bkind="child", status=None if rec is None else rec["Status"],
+                       rc=bool(rec and (rec.get("ContextDetails") or {}).get("ReplayChildren")))
             obs = self.run_seq(child_ctx, st["body"], pos + "/c", item)
-            self.w.rec("body-exit", pos=pos, bkind="child")
-            if "ret" in st:
-                return mkvalue(st["ret"])
-            return obs
+            v = mkvalue(st["ret"]) if "ret" in st else obs
+            self.w.rec("body-exit", pos=pos, bkind="child", v=canon(v))
+            return v
 
         return ctx.run_in_child_context(body, name=pos)
 
@@ -395,7 +420,10 @@ class Interp:
 
         def run(child_ctx, item=None):
             bpos = f"{pos}/b{b}"
-            w.rec("body-enter", pos=bpos, bkind="branch", parent=pos, index=b)
+            rec = w.backend.find_branch(pos, b)
+            w.rec("body-enter", pos=bpos, bkind="branch", parent=pos, index=b,
+                  status=None if rec is None else rec["Status"],
+                  rc=bool(rec and (rec.get("ContextDetails") or {}).get("ReplayChildren")))
             try:
                 obs = self.run_seq(child_ctx, body, bpos, item)
                 v = mkvalue(ret) if ret is not None else obs
